@@ -162,7 +162,12 @@ func (d *Document) writeJSONValue(buf *bytes.Buffer, value Value) error {
 			// Remove the extra newline that Encode adds
 			buf.Truncate(buf.Len() - 1)
 		} else {
-			buf.Write(quotes.WrapBytes(d.StringValueContentBytes(value.Ref)))
+			content := d.StringValueContentBytes(value.Ref)
+			if bytes.IndexByte(content, '\t') >= 0 {
+				// a raw TAB is legal inside a GraphQL string but not inside a JSON string
+				content = bytes.ReplaceAll(content, []byte{'\t'}, []byte(`\t`))
+			}
+			buf.Write(quotes.WrapBytes(content))
 		}
 	case ValueKindList:
 		buf.WriteByte(literal.LBRACK_BYTE)
